@@ -58,11 +58,12 @@ inductive ParseSel where
   | cache     -- _parseCache
   deriving DecidableEq, Repr, Inhabited
 
-/-- the two attributes of a parser element that default-whitespace handling reads/writes.
+/-- the attributes of a parser element that default-whitespace handling reads/writes.
     `ws` is `whiteChars` (a Python set) in canonical form: sorted by code point, no duplicates. -/
 structure Expr where
   ws : List Char
   copyDef : Bool
+  fwdEmpty : Bool := false   -- a `Forward` that has not been assigned an expression yet (`expr is None`)
   deriving DecidableEq, Repr, Inhabited
 
 /-- static class data of `__diag__` / `__compat__` (generated from the live package) -/
@@ -185,21 +186,27 @@ def enableAllWarnings (cfg : Cfg) : List String → Flags → Flags × Option Er
     | (fl', none) => enableAllWarnings cfg ns fl'
     | (fl', some e) => (fl', some e)
 
-/-- `ParserElement.__init__` (core.py:464-465) -/
+/-- `ParserElement.__init__` (core.py:470-471); also what `MatchFirst`/`Or`/`Each` over existing
+    expressions get (their `__init__` does not take over any child's whitespace) -/
 def newExpr (s : State) : Expr := { ws := pySet s.defaultWs, copyDef := true }
 
-/-- `ParserElement.copy` (core.py:548-553) -/
+/-- `Forward()` (core.py `Forward.__init__(None)` → `ParseElementEnhance.__init__(None)`): no expression yet -/
+def newFwd (s : State) : Expr := { ws := pySet s.defaultWs, copyDef := true, fwdEmpty := true }
+
+/-- a composite built over an existing expression (`And.__init__`, `ParseElementEnhance.__init__`) and
+    `Forward.__lshift__` (`fwd <<= e`): `self.set_whitespace_chars(e.whiteChars,
+    copy_defaults=e.copyDefaultWhiteChars)` — the child's set *and flag* are taken over, not the current default -/
+def wrapExpr (e : Expr) : Expr := { ws := e.ws, copyDef := e.copyDef }
+
+/-- `copy()`: `ParserElement.copy` (core.py:532-559) re-reads the default iff `copyDefaultWhiteChars`;
+    `Forward.copy` (core.py:5811-5817) of an *unassigned* Forward is `ret = Forward(); ret <<= self` -/
 def copyExpr (s : State) (e : Expr) : Expr :=
-  if e.copyDef then { e with ws := pySet s.defaultWs } else e
+  if e.fwdEmpty then wrapExpr e
+  else if e.copyDef then { e with ws := pySet s.defaultWs } else e
 
 /-- `set_whitespace_chars(chars, copy_defaults)` (core.py:1791-1799) -/
-def exprSetWs (chars : String) (copyDefaults : Bool) (_ : Expr) : Expr :=
-  { ws := pySet chars, copyDef := copyDefaults }
-
-/-- a composite built over an existing expression (`And.__init__` core.py:4113-4120,
-    `ParseElementEnhance.__init__` core.py:4692-4695): `self.set_whitespace_chars(first.whiteChars,
-    copy_defaults=first.copyDefaultWhiteChars)` — it inherits the child's set, not the current default -/
-def wrapExpr (e : Expr) : Expr := { ws := e.ws, copyDef := e.copyDef }
+def exprSetWs (chars : String) (copyDefaults : Bool) (e : Expr) : Expr :=
+  { e with ws := pySet chars, copyDef := copyDefaults }
 
 def modifyNth {α} (f : α → α) : Nat → List α → List α
   | _, [] => []
@@ -225,6 +232,8 @@ inductive Op where
   | copyExpr (i : Nat)                                -- users[i].copy()
   | exprSetWs (i : Nat) (chars : String) (copyDefaults : Bool)  -- users[i].set_whitespace_chars(...)
   | wrapExpr (i : Nat)                                -- Group(users[i]) / users[i] + ... (new composite)
+  | newFwd                                            -- Forward()
+  | assignFwd (i j : Nat)                             -- users[i] <<= users[j]   (users[i] a Forward)
   deriving DecidableEq, Repr, Inhabited
 
 def stepOp (cfg : Cfg) (o : Op) (s : State) : State × Option Err :=
@@ -256,6 +265,11 @@ def stepOp (cfg : Cfg) (o : Op) (s : State) : State × Option Err :=
   | .wrapExpr i =>
     match s.users[i]? with
     | some e => ({ s with users := s.users ++ [wrapExpr e] }, none)
+    | none => (s, none)
+  | .newFwd => ({ s with users := s.users ++ [newFwd s] }, none)
+  | .assignFwd i j =>
+    match s.users[j]? with
+    | some e => ({ s with users := modifyNth (fun _ => wrapExpr e) i s.users }, none)
     | none => (s, none)
 
 /-! ### `reset_pyparsing_context` (testing.py:47-127) -/
